@@ -4,7 +4,7 @@ import collections, glob, json, sys
 pid = sys.argv[1]; N = int(sys.argv[2]) if len(sys.argv) > 2 else 12; L = int(sys.argv[3]) if len(sys.argv) > 3 else 420
 PRE = ('stmt.', 'setop.', 'with.', 'from.', 'join.derived', 'select.star', 'select.scalar', 'col.unqualified_in', 'merge.', 'update.', 'having.', 'where.subquery')
 c = collections.Counter(); ex = {}
-for p in glob.glob(f'/verif/replays/{pid}-*.json'):
+for p in glob.glob(f'{__import__("os").environ.get("TRIAGE_DIR", "/verif/replays")}/{pid}-*.json'):
     r = json.load(open(p))
     tags = tuple(sorted(t for t in r['case'].get('tags', []) if t.startswith(PRE)))
     key = (r['kind'].split(':')[0], r['case'].get('dialect') if len(sys.argv) > 4 else '', tags)
